@@ -213,8 +213,8 @@ let model_file id v hr seek id0 id1 nops rest =
   match Writer.init cfg with
   | Res.Ok st0 ->
     (match Writer.run_lenient Syntax.fmt_obj Stored.fmt_sd_concrete Stored.id_cipher Stored.id_cipher
-             fenc_table Stored.deflate_stored cfg st0 ops N0 [] with
-     | ((st, _), None) when st.closed ->
+             fenc_table Stored.deflate_stored cfg st0 ops N0 [] false with
+     | (((st, _), _), None) when st.closed ->
        (match !files_oc with Some oc -> Printf.fprintf oc "%s %s\n" id (hex_of_bytes st.out) | None -> ())
      | _ -> ())
   | Res.Err _ -> ()
